@@ -7,11 +7,13 @@ HERE = os.path.dirname(os.path.dirname(os.path.abspath(__file__)))
 
 
 def run(job, work):
-    r = subprocess.run(['python3-vt', os.path.join(HERE, 'tools', 'pyvc.py')], stdout=subprocess.PIPE, stderr=subprocess.PIPE, text=True)
+    tool = job.get('tool', 'pyvc')   # pyvc: WP + Z3 (policer.py);  pyglue: typestate checker for the client glue
+    interp = 'python3-vt' if tool == 'pyvc' else 'python3'
+    r = subprocess.run([interp, os.path.join(HERE, 'tools', tool + '.py')], stdout=subprocess.PIPE, stderr=subprocess.PIPE, text=True)
     try:
         d = json.loads(r.stdout)
     except Exception:
-        return dict(inconclusive='pyvc produced no report: ' + (r.stderr or r.stdout)[-500:])
+        return dict(inconclusive=tool + ' produced no report: ' + (r.stderr or r.stdout)[-500:])
     if 'inconclusive' in d:
         return d
     # canary: the generator must be able to refute a false claim (delay < delta is false: delay == delta is reachable? no —
